@@ -148,6 +148,29 @@ PROPS["C20"] = {
     "expect_probes": ["c20.asked", "c20.asked_v6", "c20.forwarded", "c20.relayed", "c20.relay_ok", "c20.reply_unknown_id", "c20.reply_id_ambiguous", "c20.ring_wrapped", "c20.tunnel_names"],
 }
 
+PROPS["C11"] = {
+    "rule": "real client with full autodetection (query type forced in ~40% of runs; codecs and fragment size always negotiated) through an in-path relay applying one fixed transformation drawn from the product of: query-name case keep/lower/upper/random, "
+            "answer-name case likewise, bytes >= 0x80 in query names keep/strip/reject, in answer names keep/strip, '+' and '_' keep/mangle/reject, refused record types (SERVFAIL/NOTIMP/silence), answer size limit none/512/768/1232/1500/4096 with drop/SERVFAIL/TC, "
+            "EDNS0 honoured/stripped/dropped, answer-record shuffling, re-encoding, id rewriting, TTL rewriting; otherwise lossless. Oracle (1): if the handshake completes, packets offered on both sides are delivered exactly once, in order, intact (the C02(a) oracle); "
+            "(2) if the transformation leaves at least one usable record type and passes 512-byte answers, the handshake must complete. non-trivial = handshake completed and >=3 packets accepted per side; distinct = distinct run fingerprints",
+    "jobs": [
+        {"scen": "tunnel", "sets": {"mode": "relayfam"}, "quick": 2500, "thorough": 150000},
+    ],
+    "expect_probes": ["c11.must_succeed", "c11.may_fail", "c11.handshake_ok", "c11.up.Base32", "c11.up.Base64", "c11.up.Base64u", "c11.up.Base128", "c11.down.T", "c11.down.S", "c11.down.U", "c11.down.V", "c11.down.R", "c11.frag.lt200", "c11.frag.ge1200"],
+}
+
+PROPS["C08"] = {
+    "rule": "short real-client/real-server sessions over L (-M 100..255, boundaries favoured) x domain length 3..min(128, L-24) x upstream codec (forced through the path: case-changing relay -> Base32, 8-bit-unclean -> Base64, "
+            "'+'-mangling -> Base64u, clean -> Base128) x plain/wildcard-served domain, with 8-30 upstream packets of 40..1400 bytes (all chunk-tail residues) and fragsize autoprobe in half of the runs. Every query name the client emits is judged "
+            "on the wire: strict RFC 1035 parse, labels 1..63, <= 255 bytes, presentation length <= L for data/probe/ping/version/login/set-fragsize names, suffix = tunnel domain at a label boundary; data chunks reference-decode to exactly the "
+            "next contiguous non-empty slice of compress2(packet) with the last flag exactly at its end; after the server processed a chunk its reassembly buffer equals the slices sent so far; handshake names decode to (a prefix of) the documented fields. "
+            "non-trivial = handshake completed and both full and tail chunks observed; distinct = distinct run fingerprints",
+    "jobs": [
+        {"scen": "tunnel", "sets": {"mode": "names"}, "quick": 4000, "thorough": 250000},
+    ],
+    "expect_probes": ["c08.names", "c08.d", "c08.r", "c08.p", "c08.v", "c08.l", "c08.n", "c08.full_chunks", "c08.tail_chunks", "c08.srv_prefix_checked", "c08.near_limit", "c08.codec.Base64", "c08.codec.Base64u", "c08.codec.Base128"],
+}
+
 LEVEL_TEXT = {
     "C03": "Exploration: seeded adversarial histories against the real server in virtual time, judged by an independent authorisation model and by users[] snapshots around every processed datagram.",
     "C04": "Exploration: seeded multi-session histories with spoofers and expiry/reuse timing, judged by a wire-level model of slot ownership and a reference downstream reassembler.",
@@ -172,8 +195,8 @@ NOT_APPLICABLE = {
 NOT_CLAIMED = {
     "C15": "under construction",
     "C16": "under construction",
-    "C08": "check under construction in this session; not claimed until it is sound",
+    "C08": "under construction",
     "C09": "check under construction in this session; not claimed until it is sound",
-    "C11": "check under construction in this session (relay family); not claimed until it is sound",
+    "C11": "under construction",
     "C20": "under construction",
 }
